@@ -72,6 +72,9 @@ func runC08(c *Ctx, r *Report) {
 	c08r8(c, r)
 	c08r9(c, r)
 	c08r10(c, r)
+	c04r9(c, r) // convergence: a merger cached under another configuration must not be served
+	c08r11(c, r)
+	c01r3(c, r) // what may be cached / narrowed: a cached list for another term kind is a stale list
 	// ---------------- R4 ----------------
 	r.rule("C08-R4", "A (path conditions)", "P1",
 		"in Matcher.Loop, eventBox.Set(EvtSearchFin, ..) is reached only when the `cancelled` result of scan is false; every return of scan whose second result can be true returns a nil merger",
